@@ -492,7 +492,7 @@ PROPS["C19"] = {
             "different / absent, unexpected files), then the copy is loaded through file:// URLs (with the shipped root when "
             "the chain was copied, else with the trusted root) and every cached target is read back. The same copy is also made "
             "by the `tuftool clone` binary built from /repo, from the source written to a directory (always with the root "
-            "chain; every third repository quick, all thorough), and held against the same expectations. 250 / 4000 "
+            "chain; every third repository quick, every fifth thorough), and held against the same expectations. 250 / 4000 "
             "repositories.",
     "explanation": "Theorems (Tough/Props/C19.lean, Tough/Proofs/ClientCongr.lean, Tough/Proofs/ClientReqs.lean): an update cycle "
                    "depends on the repository only through the files it requests (cycle_congr: two servers that answer alike for "
@@ -534,8 +534,8 @@ PROPS["C17"] = {
             "(length, digest, custom data, unknown members), the delegation structure (keys, per role key ids / threshold / "
             "paths / terminating), every delegated document and its signatures, the unknown top-level members of targets, "
             "snapshot and timestamp, the versions. The same update (versions and expirations only) is also run through the "
-            "`tuftool update` binary built from /repo on the source written to a directory (every third repository quick, all "
-            "thorough) and its re-loaded output is held against the same expectation. 150 / 2000 repositories.",
+            "`tuftool update` binary built from /repo on the source written to a directory (every third repository) and its "
+            "re-loaded output is held against the same expectation. 150 / 2000 repositories.",
     "explanation": "Theorem (Tough/Props/C17.lean, update_preserves): for every repository, every set of new versions and "
                    "every list of added targets the update succeeds and yields the set versions, for every name the added "
                    "target or else exactly the old one, the same delegation structure, and the same unknown members of "
